@@ -108,7 +108,7 @@ def emit_graph(module_file, cfg_text, ctx, name, timeout=1200, injective=True):
     return g, res
 
 
-def walk(g, adapter, ctx, name, max_nodes=200000, op_timeout=2.0, sig_fn=None, report_limit=40, paths_per_state=1):
+def walk(g, adapter, ctx, name, max_nodes=200000, op_timeout=2.0, sig_fn=None, report_limit=40, paths_per_state=1, history_ops=()):
     """Breadth-first walk of the real code over graph `g`.
 
     adapter.new_world() -> world ; adapter.apply(world, op) -> JSON-able result ; adapter.obs(world) -> JSON-able
@@ -200,7 +200,10 @@ def walk(g, adapter, ctx, name, max_nodes=200000, op_timeout=2.0, sig_fn=None, r
                 if len(paths) < max_nodes:
                     paths[nxt] = [path + [op]]
                     queue.append((nxt, 0))
-            elif len(paths[nxt]) < paths_per_state and nxt != node and (path + [op]) not in paths[nxt]:
+            elif len(paths[nxt]) < paths_per_state and (nxt != node or op.get("op") in history_ops) \
+                    and len(path) < 12 and (path + [op]) not in paths[nxt]:
+                # another way into the same abstract state; operations named in history_ops (flush, clear, ...) count even
+                # when they lead back to the state they started from: the implementation may remember that they happened
                 paths[nxt].append(path + [op])
                 queue.append((nxt, len(paths[nxt]) - 1))
     stats = {"spec": name, "spec_states": len(g.states), "spec_edges": g.n_edges, "code_nodes": len(paths),
